@@ -213,6 +213,10 @@ func (s *V2Session) buildAndSend(ctx context.Context, c ipmi.Command) error {
 			return fmt.Errorf("received a packet for session %#x, ours is %#x",
 				s.v2SessionLayer.ID, s.LocalID)
 		}
+		if !isResponseTo(&s.messageLayer.Operation, c.Operation()) {
+			return fmt.Errorf("received a message for %v while waiting for "+
+				"the response to %v", s.messageLayer.Operation, *c.Operation())
+		}
 		code := s.messageLayer.CompletionCode
 		// must increment here, otherwise we'll miss temporary codes at the
 		// higher levels
